@@ -18,7 +18,8 @@ SHARDS = {"quick": 16, "thorough": 16}
 RULE = ("Hypothesis draws a data set (5-9 volumes, 1-4 q-points, 1-3 atoms, power-law/polynomial ln nu(ln V), BM3 static energy, "
         "PD static tensor in the drawn crystal system with all its non-zero components, optional lattice block) and a "
         "configuration built field by field (interpolator x admissible order, T_MIN, DT 0.5-500, NT 1-8, NTV 16-41, volume_ratio, "
-        "BM order 3-5, DT_SAMPLE/DELTA_P_SAMPLE present or absent, pressures placed inside the range reported by the qha package); "
+        "BM order 3-5, DT_SAMPLE/DELTA_P_SAMPLE present or absent, pressures placed inside the range reported by the qha package, with a "
+        "10 % margin or with the lowest / highest one inside the first / last cell of the P(T,V) table; moduli on the (T,V) and (T,P) grids); "
         "non-trivial = temperature rows below 5 K, or a non-default interpolator, or a shear key beyond 44/55/66; distinct by the drawn spec")
 ASSUMPTIONS = [
     "reachable pressure range taken from the third-party qha package run directly on the same arrays (10 % margin)",
@@ -33,6 +34,8 @@ def cases(draw):
     s["explicit_dp_sample"] = draw(st.booleans())
     s["bm_order"] = draw(st.integers(3, max(3, min(5, s["nv"] - 2))))
     s["soft_mode"] = draw(st.sampled_from([False, False, False, True]))
+    # lowest / highest requested pressure inside the first / last cell of the computed P(T,V) table (still inside the range)
+    s["edge"] = draw(st.sampled_from([None, None, "low", "high"]))
     s["low_t"] = draw(st.booleans())
     if s["low_t"]:
         s["tmin"] = 0.0
@@ -44,7 +47,8 @@ def classes_of(s):
     return ["interp-" + s["interpolator"], "system-" + s["system"], "lattice" if s["lattice"] else "no-lattice",
             "dt_sample-" + ("explicit" if s["explicit_dt_sample"] else "default"),
             "dp_sample-" + ("explicit" if s["explicit_dp_sample"] else "default"),
-            "bm-order-%d" % s["bm_order"], "lowT" if s["low_t"] else "T-generic", "soft-mode" if s.get("soft_mode") else "no-soft-mode"]
+            "bm-order-%d" % s["bm_order"], "lowT" if s["low_t"] else "T-generic", "soft-mode" if s.get("soft_mode") else "no-soft-mode",
+            "pressure-edge-%s" % s.get("edge")]
 
 
 def tags_of(s, qs):
@@ -63,7 +67,7 @@ def tags_of(s, qs):
 
 def build(s):
     ds = Dataset(s)
-    r = place_pressures(ds, {"order": s["bm_order"]})
+    r = place_pressures(ds, {"order": s["bm_order"]}, edge=s.get("edge"))
     if r is None:
         return ds, None
     qs = dict(r[0])
@@ -103,6 +107,14 @@ def oracle(ctx, s, ds, qs):
             except Exception as e:  # noqa
                 from ..runner import crash_site
                 raise PropertyViolation("C12/derived-crash%s/%s" % (tag, crash_site(e)), "%s failed: %s" % (name, e), case)
+        # the (T,P) grid: the requested pressures are inside the computed range
+        try:
+            pb = calc.pressure_base
+            iso_tp = {tuple(k.voigt): np.asarray(pb.modulus_isothermal[k]) for k in calc.modulus_keys}
+            adi_tp = {tuple(k.voigt): np.asarray(pb.modulus_adiabatic[k]) for k in calc.modulus_keys}
+        except Exception as e:  # noqa
+            from ..runner import crash_site
+            raise PropertyViolation("C12/pressure-base-crash%s/%s" % (tag, crash_site(e)), "pressure base failed: %s" % (e,), case)
     # ---- isothermal: real and finite everywhere --------------------------------------------------------
     for k, v in iso.items():
         if v.shape != (nt, ntv):
@@ -119,6 +131,15 @@ def oracle(ctx, s, ds, qs):
             raise PropertyViolation("C12/complex" + tag, "c%d%d adiabatic is complex-typed" % k, case)
         if not np.all(np.isfinite(v[ok_cv])):
             raise PropertyViolation("C12/nonfinite-adiabatic" + tag, "c%d%d adiabatic not finite where C_V>0" % k, case)
+    for k, v in iso_tp.items():
+        if np.iscomplexobj(v) or not np.all(np.isfinite(v)):
+            bad = np.argwhere(~np.isfinite(v))[0]
+            raise PropertyViolation("C12/nonfinite-isothermal-tp" + tag, "c%d%d isothermal on the (T,P) grid not finite at (T=%g, ip=%d of %d)" % (
+                k[0], k[1], T[bad[0]], bad[1], v.shape[1]), case)
+    if np.all(ok_cv):
+        for k, v in adi_tp.items():
+            if np.iscomplexobj(v) or not np.all(np.isfinite(v)):
+                raise PropertyViolation("C12/nonfinite-adiabatic-tp" + tag, "c%d%d adiabatic on the (T,P) grid not finite although C_V>0 everywhere" % k, case)
     # ---- averages and velocities finite where the stiffness is positive definite ---------------------------
     good = np.all(np.isfinite(np.stack([v for v in adi.values()])), axis=0)
     C = tensor_from_keys({k: np.where(good, v, 0.0) for k, v in adi.items()}, shape=(nt, ntv))
